@@ -5,13 +5,13 @@
   `Proofs/SongFragment.lean` proves that the predicate implies them.
 -/
 import Ctrmml.Spec.Expand
+import Ctrmml.Spec.Timeline
+import Ctrmml.Model.MdsCodec
 namespace Ctrmml.Fragment
-open Ctrmml Ctrmml.Tree Ctrmml.Expand Tables
+open Ctrmml Ctrmml.Tree Ctrmml.Expand Ctrmml.Mds Tables
 
-/-- no platform command, no macro track (pan envelope on), no pitch envelope on, notes (and, in drum
-mode, routine numbers) inside the MDSDRV range -/
+/-- no pitch envelope on, notes (and, in drum mode, routine numbers) inside the MDSDRV range -/
 def simpleEvB (e : Event) : Bool :=
-  e.type != ev_PLATFORM && (e.type != ev_PAN_ENVELOPE || e.param == 0) &&
   (e.type != ev_NOTE || (decide (0 ≤ e.param) && decide (e.param < 94))) &&
   (e.type != ev_PITCH_ENVELOPE || e.param == 0)
 
@@ -87,6 +87,25 @@ def routineB (song : Song) (p : Int) : Bool :=
 /-- every drum-routine key of the converter's subroutine map (`track * 4 + 2`) names a routine track -/
 def routinesB (song : Song) (subMap : List (Int × Nat)) : Bool :=
   subMap.all fun kv => kv.1 % 4 != 2 || routineB song ((kv.1 - 2) / 4)
+
+/-- one event of a platform command the theorems cover: `CARRY` (no bytes in a channel track), or a
+command with one or two argument bytes that carries no index (not `INS`/`PCM`/`PEG`/`MTAB`) and, if
+it is `FLG`, has bit 7 set (the `fm3` command; without it the flag byte would switch drum mode) -/
+def platEvB (ev : MEv) : Bool :=
+  (ev.type == mds_CARRY && ev.arg == 0) ||
+  (((byteArgOps.contains ev.type && ev.type != mds_DMFINISH) || wordArgOps.contains ev.type) &&
+    (ev.type != mds_FLG || decide (ev.arg % 256 ≥ 0x80)) && decide (ev.arg < 65536))
+
+/-- what the events of a platform command denote: (opcode, operand as the interpreter reads it) -/
+def platSpec (evs : List MEv) : List (Nat × Nat) :=
+  evs.flatMap fun e => if e.type = mds_CARRY then [] else [(e.type, if wordArgOps.contains e.type then e.arg else e.arg % 256)]
+
+/-- the converter's platform commands and the timeline's agree -/
+def platAgreeB (pl : List (Int × Option (List MEv))) (pf : Timeline.Platform) : Bool :=
+  pl.all fun kv =>
+    match pl.lookup kv.1 with
+    | some (some evs) => evs.all platEvB && pf.lookup kv.1 == some (platSpec evs)
+    | _ => true
 
 /-- the song is an instance of the hypotheses on the song (every channel track with at most one loop
 point, its loop section ending in the drum-mode state it starts in); `subMap` = the subroutine map
